@@ -222,9 +222,9 @@ def h_unwrap(ctx, cfg):
 def tasks(tier, seed):
   big = tier == "thorough"
   T = []
-  NS = (0, 3, 5) if not big else (0, 2, 5, 8)
+  NS = (0, 3, 6) if not big else (0, 2, 5, 8)
   for N in NS:
-    for size in ((1, 2, 3, 4) if not big else (1, 2, 3, 4, 6)):
+    for size in ((1, 2, 3, 4, 5) if not big else (1, 2, 3, 4, 6, 8)):
       if N == 0 and size > 1: continue
       T.append(("h_maverage", {"N": N, "size": size}))
     T.append(("h_accumulate", {"N": N}))
